@@ -489,6 +489,48 @@ def t4_sign_survives(ctx: Ctx):
     ctx.check(len(users) >= 1, NEGZERO, fn, '_sign_survives', 'the predicate is consulted by the rewriter', 'no caller')
 
 
+def t6_zero_sum_scopes(ctx: Ctx):
+    """A rounding that does not change the value can still decide the sign of a zero: terms of unlike sign that cancel
+    give -0 where the scope rounds toward negative and +0 elsewhere (ops._zero_sum).  So neither pass may move an
+    addition or a subtraction across such a scope: RoundElim must not call its rounding removable, RoundInsert must
+    decline to place it under such a target.  Both predicates are evaluated, from their source, with every other
+    condition favourable."""
+    from ..minipy import Interp, Obj
+    ELIM, INSERT = T + 'round_elim.py', T + 'round_insert.py'
+    getattr_ = lambda o, a, d=None: o.fields.get(a, d) if isinstance(o, Obj) else d  # noqa: E731
+    fe = ctx.fn(ELIM, '_RoundElimInstance._is_eliminable')
+    fi = ctx.fn(INSERT, '_RoundInsertInstance._verify')
+    rows = 0
+    for kind in ('Add', 'Sub'):
+        for rm in ('RTN', 'RNE'):
+            scope = Obj('IEEEContext', rm=('enum', 'RM', rm), format=lambda: Obj('Format'), is_stochastic=lambda: False)
+            unrounded = Obj('SetFormat')
+            it = Interp({}, {}, globals_={'REAL': Obj('RealContext')}, is_a=lambda k, c: k == c,
+                        overrides={'self._resolved_ctx': lambda e, s=scope: s, 'self._unrounded_format': lambda e, u=unrounded: u, 'round_is_identity': lambda a, b: True, 'getattr': getattr_})
+            got = it.call_function(fe, [Obj(kind)], bound_self=True)
+            rows += 1
+            if rm == 'RTN':
+                ctx.check(got is False, ELIM, fe, '_RoundElimInstance._is_eliminable', f'{kind} under a round-toward-negative scope keeps its rounding',
+                          'called removable: `x - x` under an RTN scope is -0.0, hoisted under REAL it is +0.0')
+            else:
+                ctx.check(got is True, ELIM, fe, '_RoundElimInstance._is_eliminable', f'{kind} under a round-to-nearest scope with an exactly representable result is removable', f'got {got!r}')
+            me = Obj('_RoundInsertInstance', ctx=scope, scopes=Obj('scopes', format_info=Obj('info', by_expr={})))
+            it = Interp({}, {}, is_a=lambda k, c: k == c, self_obj=me,
+                        overrides={'round_is_identity': lambda a, b: True, 'getattr': getattr_, 'Declined': lambda why: Obj('Declined', why=why),
+                                   'AbstractFormat.from_format': lambda f: f})
+            e = Obj(kind)
+            me.fields['scopes'].fields['format_info'].fields['by_expr'][e] = Obj('SetFormat')
+            got = it.call_function(fi, [e], bound_self=True)
+            rows += 1
+            if rm == 'RTN':
+                ctx.check(isinstance(got, Obj) and got.kind == 'Declined', INSERT, fi, '_RoundInsertInstance._verify', f'{kind} is not placed under a round-toward-negative target',
+                          'accepted: `x - x` under REAL is +0.0, under the inserted RTN rounding it is -0.0')
+            else:
+                ctx.check(got is None, INSERT, fi, '_RoundInsertInstance._verify', f'{kind} with a representable result is placed under a round-to-nearest target', f'got {got!r}')
+    if rows < 8:
+        raise ShapeError('zero-sum scope table shrank')
+
+
 def t5_shed_rules(ctx: Ctx):
     """UnfoldSpecial may take the infinity rule out of a format only if no *finite* operand reaches the infinity.  A
     finite operand reaches it by overflowing under OverflowMode.OVERFLOW when the overflow of *either* sign rounds to the
@@ -538,6 +580,7 @@ def f3_rebuild_parameters(ctx: Ctx):
 RULES = [
     Rule('C10.T3', 'float-to-fixed: the overflow policy is accepted only when both overflow probes show it', t3_overflow_policy, 1, 'T'),
     Rule('C10.T4', 'negative-zero unfolding is refused exactly where a zero of foreign sign is reachable (wrap, or a zero substituted for a disabled NaN / infinity)', t4_sign_survives, 2, 'T'),
+    Rule('C10.T6', 'no addition or subtraction is moved across a round-toward-negative scope (its rounding decides the sign of a zero sum)', t6_zero_sum_scopes, 8, 'T'),
     Rule('C10.T5', 'special-value unfolding sheds the infinity rule only where no finite operand reaches the infinity (either sign, random bits)', t5_shed_rules, 1, 'T'),
     Rule('C10.F3', 'a rebuilt format / context receives every carried-over parameter under its own name (no swapped or shifted arguments)', f3_rebuild_parameters, 30, 'F'),
     Rule('C10.P2', 'an analysis handed to a lowering rewriter along with a function is the analysis of that function', analysis_pairing((T + 'float_to_fixed.py', T + 'unfold_overflow.py', T + 'unfold_special.py', T + 'unfold_neg_zero.py', T + 'round_elim.py', T + 'round_insert.py', T + 'rescale_fixed.py'), 10), 10, 'P'),
@@ -553,6 +596,9 @@ RULES = [
 from ..selftest import Mutant  # noqa: E402
 
 MUTANTS = [
+    Mutant('round-elim-hoists-sums-out-of-rtn', T + 'round_elim.py', "        if isinstance(e, (Add, Sub)) and getattr(ctx, 'rm', None) is RM.RTN:", "        if False:", 'C10.T6',
+           'finding F72 before its repair: x - x under an RTN binary16 scope is -0.0, hoisted it is +0.0'),
+    Mutant('round-insert-places-sums-under-rtn', T + 'round_insert.py', "        if isinstance(e, (Add, Sub)) and getattr(self.ctx, 'rm', None) is RM.RTN:", "        if isinstance(e, Add) and getattr(self.ctx, 'rm', None) is RM.RTN:", 'C10.T6'),
     Mutant('shed-asks-the-positive-overflow-only', SPECIAL, "    if ctx.num_randbits == 0 and not any(ctx._overflow_to_infinity(s) for s in (False, True)):", "    if ctx.num_randbits == 0 and not ctx._overflow_to_infinity(False):", 'C10.T5',
            'seeded change C10d: under RTN a negative overflow is -inf'),
     Mutant('shed-ignores-random-bits', SPECIAL, "    if ctx.num_randbits == 0 and not any(ctx._overflow_to_infinity(s) for s in (False, True)):", "    if not any(ctx._overflow_to_infinity(s) for s in (False, True)):", 'C10.T5',
